@@ -17,3 +17,6 @@ func VerifToken(iss, aud, sub did.DID, cmd command.Command, pol policy.Policy, n
 	return &Token{issuer: iss, audience: aud, subject: sub, command: cmd, policy: pol,
 		nonce: make([]byte, 12), meta: meta.NewMeta(), notBefore: nbf, expiration: exp}
 }
+
+// VerifSetMeta gives a harness-built delegation its metadata.
+func VerifSetMeta(t *Token, m *meta.Meta) { t.meta = m }
